@@ -1118,3 +1118,38 @@ Proof.
     by (apply N.mul_le_mono_r; exact HC).
   lia.
 Qed.
+
+(* ================================================================== zero-elapsed bursts *)
+Lemma cancel_W x c W : 0 < W -> x * W <= c * W + c * 0 -> x <= c.
+Proof. intros HW H. rewrite N.mul_0_r, N.add_0_r in H. apply N.mul_le_mono_pos_r in H; assumption. Qed.
+
+Lemma W64_pos : 0 < W64. Proof. reflexivity. Qed.
+Lemma W48_pos : 0 < W48. Proof. reflexivity. Qed.
+Lemma W24_pos : 0 < W24. Proof. reflexivity. Qed.
+Lemma WG_pos : 0 < WG. Proof. reflexivity. Qed.
+
+Lemma join_burst jc cap tr :
+  join_fits cap tr -> span (map fst tr) = 0 ->
+  let rs := snd (join_run jc cap js_init tr) in
+  (forall p, count_ok (in64 p) tr rs <= j_per64 jc) /\
+  (forall p, count_ok (in48 p) tr rs <= j_per48 jc) /\
+  (forall p, count_ok (in24 p) tr rs <= j_per24 jc) /\
+  ntrue (map passed_global rs) <= j_gburst jc /\
+  count_ok anyaddr tr rs <= j_gburst jc.
+Proof.
+  intros Hfit HT. cbn zeta. repeat split; intros.
+  - pose proof (join_bound_64 jc cap tr Hfit p) as H. rewrite HT in H. exact (cancel_W _ _ _ W64_pos H).
+  - pose proof (join_bound_48 jc cap tr Hfit p) as H. rewrite HT in H. exact (cancel_W _ _ _ W48_pos H).
+  - pose proof (join_bound_24 jc cap tr Hfit p) as H. rewrite HT in H. exact (cancel_W _ _ _ W24_pos H).
+  - pose proof (join_bound_global jc cap tr Hfit) as H. rewrite HT in H.
+    rewrite N.mul_0_r, N.add_0_r in H. apply N.mul_le_mono_pos_r in H; [exact H|exact WG_pos].
+  - pose proof (join_bound_total jc cap tr Hfit) as H. rewrite HT in H.
+    rewrite N.mul_0_r, N.add_0_r in H. apply N.mul_le_mono_pos_r in H; [exact H|exact WG_pos].
+Qed.
+
+(* a clock that does not move: span = 0 *)
+Lemma span_const t n : span (repeat t n) = 0.
+Proof.
+  destruct n as [|n]; [reflexivity|]. cbn [repeat span].
+  induction n as [|n IH]; cbn [repeat span_from]; [reflexivity|]. rewrite IH. lia.
+Qed.
